@@ -436,13 +436,7 @@ func runC12(c *eng.Ctx) {
 
 	// R4 error flow of Run + RunAndLogLines
 	r4 := c.Rule("C12.R4", "I:error-flow", "non-zero exit -> error; after a zero exit each output is read and a parse/read error is returned (Hook.Run, RunAndLogLines)", 6)
-	if run != nil {
-		names := map[string]bool{"RunAndLogLines": true, "MetricOperationsFromFile": true, "ResponseFromFile": true, "ReadFile": true}
-		checkErrSites(r4, run, func(o types.Object) bool { return names[o.Name()] }, nil, nil)
-	}
-	if f := r4.NeedFunc(pkgExec + ".(*Executor).RunAndLogLines"); f != nil {
-		checkErrSites(r4, f, func(o types.Object) bool { return nameOf(o) == "Run" }, nil, nil)
-	}
+	runHookFailureIsError(c, r4)
 	// a malformed metrics file fails the execution: the stream is decoded to its end
 	streamDecodedToEOF(c, r4, pkgMOp+".MetricOperationsFromReader")
 
@@ -512,4 +506,19 @@ func envBinding(info *types.Info, e ast.Expr) (string, ast.Expr, bool) {
 		}
 	}
 	return "", nil, false
+}
+
+// runHookFailureIsError is the body of C12.R4, shared as C14.R8 and C15.R8: a hook process that does not end with a
+// zero exit (also one killed by a signal: cmd.Run's error, not a comparison of exit codes, decides) is an error of
+// RunAndLogLines and of Hook.Run, and so are unreadable or malformed output files; the webhook handlers turn that
+// error into a denial (C14.R2) resp. a Failed answer (C15.R5).
+func runHookFailureIsError(c *eng.Ctx, r4 *eng.RuleCtx) {
+	p := c.P
+	if run := p.Func(pkgHook + ".(*Hook).Run"); run != nil {
+		names := map[string]bool{"RunAndLogLines": true, "MetricOperationsFromFile": true, "ResponseFromFile": true, "ReadFile": true}
+		checkErrSites(r4, run, func(o types.Object) bool { return names[o.Name()] }, nil, nil)
+	}
+	if f := r4.NeedFunc(pkgExec + ".(*Executor).RunAndLogLines"); f != nil {
+		checkErrSites(r4, f, func(o types.Object) bool { return nameOf(o) == "Run" }, nil, nil)
+	}
 }
